@@ -25,8 +25,14 @@ def run_one(sc):
 
     kind = sc["kind"]
     cfg = sc["cfg"]
-    env = Environment()
+    # "t0": the environment's clock starts at t0 (any sign); every instant is recorded relative to it
+    t0 = sc.get("t0", 0)
+    env = Environment(t0) if t0 else Environment()
     rec = netlib.Recorder(env)
+
+    def rel(x):
+        # an origin before the start of time means "since the beginning"
+        return x - t0 if x >= t0 else 0
     base = TB_BASE if kind == "tb" else TR_BASE
     try:
         if kind == "tb":
@@ -44,15 +50,15 @@ def run_one(sc):
 
     if kind == "tb":
         def state():
-            return {"lvl": num(el.current_bucket), "upd": num(el.update_time)}
+            return {"lvl": num(el.current_bucket), "upd": num(rel(el.update_time))}
     else:
         def state():
             return {"cl": num(el.current_bucket_commit), "pl": num(el.current_bucket_peak),
-                    "upd": num(el.update_time)}
+                    "upd": num(rel(el.update_time))}
 
     class Sink:
         def put(self, pkt):
-            d = dict(base, e="D", t=ex(env.now), id=pkt.packet_id, sz=pkt.size, **state())
+            d = dict(base, e="D", t=ex(env.now - t0), id=pkt.packet_id, sz=pkt.size, **state())
             if kind == "trtb":
                 d["col"] = pkt.color if isinstance(pkt.color, str) else repr(pkt.color)
             rec.ev.append(d)
@@ -66,9 +72,9 @@ def run_one(sc):
         return Packet(env.now, a["sz"], serial[0], flow_id=a.get("f", 0))
 
     def on_arrival(i, a, pkt):
-        rec.ev.append(dict(base, e="A", t=ex(env.now), id=pkt.packet_id, sz=a["sz"], **state()))
+        rec.ev.append(dict(base, e="A", t=ex(env.now - t0), id=pkt.packet_id, sz=a["sz"], **state()))
 
-    netlib.injector(env, rec, sc["arr"], make_packet, el, on_arrival)
+    netlib.injector(env, rec, sc["arr"], make_packet, el, on_arrival, origin=t0)
     ok = netlib.run_env(env, rec)
     for e in rec.ev:
         if e["e"] == "X":
@@ -77,7 +83,7 @@ def run_one(sc):
                 e.setdefault(k, v)
             e.update(state())
     if ok:
-        rec.ev.append(dict(base, e="Q", t=ex(env.now), **state()))
+        rec.ev.append(dict(base, e="Q", t=ex(env.now - t0), **state()))
     return {"kind": kind, "cfg": cfg, "ev": rec.ev}
 
 
